@@ -298,6 +298,16 @@ def extract(repo: Path) -> dict:
     check_order(s3, o3, ["type", "dtype", "ndim", "dims", "shape", "coord", "clip"])
     info["q"], info["q_clip"] = f3, clip3
 
+    # the alias property `array_2d` must delegate to `array` (the driver uses both entry points, the model one)
+    g2 = [n for n in ph.body if isinstance(n, ast.FunctionDef) and n.name == "array_2d"
+          and any(ast.unparse(d) == "property" for d in n.decorator_list)]
+    st2 = setter_of(ph, "array_2d")
+    if g2 or st2 is not None:
+        if len(g2) != 1 or [norm(x) for x in body_no_doc(g2[0])] != ["return self.array"]:
+            fail(ph, "Photon.array_2d getter must be `return self.array`")
+        if st2 is None or [norm(x) for x in body_no_doc(st2)] != ["self.array = value"]:
+            fail(ph, "Photon.array_2d setter must be `self.array = value`")
+
     # ---- Detector setters
     t = parse(repo, "pyxel/detectors/detector.py")
     det = find_class(t, "Detector")
